@@ -18,6 +18,7 @@ theorem next_wiring (s : FastStochastic F) (x : F) (mn' : Minimum F) (lo : F) (m
       if Scalar.beq lo hi then Scalar.lit 50 0
       else Scalar.mul (Scalar.div (Scalar.sub x lo) (Scalar.sub hi lo)) (Scalar.lit 100 0)) := by
   unfold next
+  try simp only [gen_helper]
   simp [h1, h2]
 
 /-- bar path: `high` feeds the maximum (first), `low` feeds the minimum, `close` is the numerator;
@@ -28,17 +29,20 @@ theorem nextBar_wiring (s : FastStochastic F) (b : Bar F) (mn' : Minimum F) (lo 
       if Scalar.beq hi lo then Scalar.lit 50 0
       else Scalar.mul (Scalar.div (Scalar.sub b.close lo) (Scalar.sub hi lo)) (Scalar.lit 100 0)) := by
   unfold nextBar
+  try simp only [gen_helper]
   simp [h1, h2]
 
 /-- panic propagation: `next` panics iff one of the two windows does -/
 theorem next_none_iff (s : FastStochastic F) (x : F) :
     s.next x = none ↔ s.minimum.next x = none ∨ s.maximum.next x = none := by
   unfold next
+  try simp only [gen_helper]
   cases h1 : s.minimum.next x <;> cases h2 : s.maximum.next x <;> simp [h2]
 
 theorem nextBar_none_iff (s : FastStochastic F) (b : Bar F) :
     s.nextBar b = none ↔ s.minimum.next b.low = none ∨ s.maximum.next b.high = none := by
   unfold nextBar
+  try simp only [gen_helper]
   cases h1 : s.minimum.next b.low <;> cases h2 : s.maximum.next b.high <;> simp [h1]
 
 theorem next_total (s : FastStochastic F) (x : F) (h : WF s) :
